@@ -9,8 +9,11 @@
 //   {"e":"Prog","p":{...}}   {"e":"Begin","c":[op,ev]}
 //   {"e":"Call","c":[op,ev],"ret":0|1,"out":[[...],...],"q":[[r,t,cur,last,next],...]}   {"e":"Reset"}
 // Event tuples: ["G",m,g,ev,res] ["H",m,h,ev,res] ["X",m,s,ev,next] ["A",m,a,ev,cur,next] ["E",m,s,ev,cur]
-//               ["C",m,from,ev,to,cur] ["R",m,op,ev,ret,same]
+//               ["C",m,from,ev,to,cur] ["R",m,op,ev,ret,same,t]  (re-entrant call made on machine t from a callback of m)
+// The machines are DEFINED by replaying p.defs, an arbitrary legal order of the definition calls newState / addRoute /
+// addEvent / setInitState / setSubStateMachine (a route to the terminal state 0 may precede the user's own newState(0,..)).
 #include <vh.h>
+#include <algorithm>
 #include <fstream>
 #include <memory>
 #include <nlohmann/json.hpp>
@@ -22,13 +25,16 @@ using json = nlohmann::json;
 
 namespace {
 
-struct ReEntry { int m; std::string k; int id; int op, ev; bool fired; };
+struct ReEntry { int m; std::string k; int id; int op, ev; int t; bool fired; };
 
 struct Exec {
     std::vector<std::unique_ptr<StateMachine>> sm;   // 1-based
     std::vector<std::vector<int>> gs, hs;            // 1-based scripts
     std::vector<size_t> gp, hp;
     std::vector<ReEntry> re;
+    std::vector<std::vector<int>> owns_sub;          // owns_sub[m] = ids of the states of machine m that own a nested machine
+    std::vector<char> act;                           // act[m]: m delivered its state-changed notification into such a state
+                                                     // earlier in this public call (it is activating the nested machine)
     std::string out;                                 // events of the call in progress
     bool first = true;
 
@@ -50,18 +56,24 @@ struct Exec {
         }
         fprintf(stderr, "bad op %d\n", op); _exit(3);
     }
-    // the callback (k, id) of machine m has just been logged: perform its re-entrant attempt (once)
+    // the callback (k, id) of machine m has just been logged: perform its re-entrant attempt (once).  The attempt is
+    // made on machine r.t: m itself, or an ancestor of m - the latter only while that ancestor is activating its nested
+    // machine (act[r.t]), i.e. while it is still inside its own run(); otherwise the attempt waits for a later invocation.
     void fire(const char *k, int m, int id) {
         for (auto &r : re) {
             if (r.fired || r.m != m || r.id != id || r.k != k) continue;
+            if (r.t != m && !act[r.t]) continue;
             r.fired = true;
-            std::string before = query(m);
-            int ret = call(m, r.op, r.ev);
-            std::string after = query(m);
+            std::string before = query(r.t);
+            int ret = call(r.t, r.op, r.ev);
+            std::string after = query(r.t);
             ev("[\"R\"," + std::to_string(m) + "," + std::to_string(r.op) + "," + std::to_string(r.ev) + "," +
-               std::to_string(ret) + "," + (before == after ? "1" : "0") + "]");
+               std::to_string(ret) + "," + (before == after ? "1" : "0") + "," + std::to_string(r.t) + "]");
             return;
         }
+    }
+    void changed(int m, int to) {
+        for (int s : owns_sub[m]) if (s == to) act[m] = 1;
     }
 };
 
@@ -72,62 +84,89 @@ std::string tup(const char *k, std::initializer_list<long long> v) {
 }
 
 [[noreturn]] void setup_failed(const char *what) {
-    vh::fault("setup", what);   // a valid program was refused by newState/addRoute/...: no spec action accepts this
+    vh::fault("setup", what);   // a valid definition call was refused by newState/addRoute/...: no spec action accepts this
+}
+
+// ---- the definition calls, one function per public API call --------------------------------------------------------
+void def_state(Exec *x, int m, const json &S) {
+    StateMachine *sm = x->sm[m].get();
+    int sid = S["id"];
+    StateMachine::ActionFunc en, ex;
+    if (S["en"].get<int>()) en = [x, sm, m, sid](Event e) { x->ev(tup("E", {m, sid, e.id, sm->currentState()})); x->fire("E", m, sid); };
+    if (S["ex"].get<int>()) ex = [x, sm, m, sid](Event e) { x->ev(tup("X", {m, sid, e.id, sm->nextState()})); x->fire("X", m, sid); };
+    if (!sm->newState(sid, en, ex, "s" + std::to_string(sid))) setup_failed("newState");
+}
+void def_route(Exec *x, int m, const json &S, const json &R) {
+    StateMachine *sm = x->sm[m].get();
+    int g = R["g"], a = R["a"];
+    StateMachine::GuardFunc gf;
+    StateMachine::ActionFunc af;
+    if (g) gf = [x, m, g](Event e) {
+        int v = x->gs[g][x->gp[g]]; x->gp[g] = (x->gp[g] + 1) % x->gs[g].size();
+        x->ev(tup("G", {m, g, e.id, v})); x->fire("G", m, g); return v != 0; };
+    if (a) af = [x, sm, m, a](Event e) { x->ev(tup("A", {m, a, e.id, sm->currentState(), sm->nextState()})); x->fire("A", m, a); };
+    if (!sm->addRoute(S["id"].get<int>(), R["ev"].get<int>(), R["to"].get<int>(), gf, af)) setup_failed("addRoute");
+}
+void def_handler(Exec *x, int m, const json &S, const json &H) {
+    int h = H["h"];
+    auto hf = [x, m, h](Event e) -> StateMachine::StateID {
+        int v = x->hs[h][x->hp[h]]; x->hp[h] = (x->hp[h] + 1) % x->hs[h].size();
+        x->ev(tup("H", {m, h, e.id, v})); x->fire("H", m, h); return v; };
+    if (!x->sm[m]->addEvent(S["id"].get<int>(), H["ev"].get<int>(), hf)) setup_failed("addEvent");
+}
+void def_sub(Exec *x, int m, const json &S) {
+    if (!x->sm[m]->setSubStateMachine(S["id"].get<int>(), x->sm[S["sub"].get<int>()].get())) setup_failed("setSubStateMachine");
 }
 
 void build(Exec &X, const json &p) {
     const json &ms = p["ms"];
     int nm = (int)ms.size();
     X.sm.resize(nm + 1);
+    X.owns_sub.resize(nm + 1); X.act.assign(nm + 1, 0);
     for (int m = 1; m <= nm; ++m) { X.sm[m].reset(new StateMachine); X.sm[m]->setName("m" + std::to_string(m)); }
     X.gs.resize(p["gs"].size() + 1); X.gp.assign(p["gs"].size() + 1, 0);
     for (size_t g = 1; g < X.gs.size(); ++g) X.gs[g] = p["gs"][g - 1].get<std::vector<int>>();
     X.hs.resize(p["hs"].size() + 1); X.hp.assign(p["hs"].size() + 1, 0);
     for (size_t h = 1; h < X.hs.size(); ++h) X.hs[h] = p["hs"][h - 1].get<std::vector<int>>();
-    for (auto &r : p["re"]) X.re.push_back(ReEntry{r["m"], r["k"], r["id"], r["c"][0], r["c"][1], false});
+    for (auto &r : p["re"]) X.re.push_back(ReEntry{r["m"], r["k"], r["id"], r["c"][0], r["c"][1], r.value("t", r["m"].get<int>()), false});
     Exec *x = &X;
     for (int m = 1; m <= nm; ++m) {
+        for (auto &S : ms[m - 1]["ss"]) if (S["sub"].get<int>()) X.owns_sub[m].push_back(S["id"].get<int>());
+        // the notification callback is not a definition call of the machine's structure: installed up front
         StateMachine *sm = X.sm[m].get();
-        const json &M = ms[m - 1];
-        // states first (routes need their targets)
-        for (auto &S : M["ss"]) {
-            int sid = S["id"];
-            StateMachine::ActionFunc en, ex;
-            if (S["en"].get<int>()) en = [x, sm, m, sid](Event e) { x->ev(tup("E", {m, sid, e.id, sm->currentState()})); x->fire("E", m, sid); };
-            if (S["ex"].get<int>()) ex = [x, sm, m, sid](Event e) { x->ev(tup("X", {m, sid, e.id, sm->nextState()})); x->fire("X", m, sid); };
-            if (!sm->newState(sid, en, ex, "s" + std::to_string(sid))) setup_failed("newState");
-        }
-        for (auto &S : M["ss"]) {
-            int sid = S["id"];
-            for (auto &R : S["rs"]) {
-                int g = R["g"], a = R["a"];
-                StateMachine::GuardFunc gf;
-                StateMachine::ActionFunc af;
-                if (g) gf = [x, m, g](Event e) {
-                    int v = x->gs[g][x->gp[g]]; x->gp[g] = (x->gp[g] + 1) % x->gs[g].size();
-                    x->ev(tup("G", {m, g, e.id, v})); x->fire("G", m, g); return v != 0; };
-                if (a) af = [x, sm, m, a](Event e) { x->ev(tup("A", {m, a, e.id, sm->currentState(), sm->nextState()})); x->fire("A", m, a); };
-                if (!sm->addRoute(sid, R["ev"].get<int>(), R["to"].get<int>(), gf, af)) setup_failed("addRoute");
-            }
-            for (auto &H : S["hd"]) {
-                int h = H["h"];
-                auto hf = [x, m, h](Event e) -> StateMachine::StateID {
-                    int v = x->hs[h][x->hp[h]]; x->hp[h] = (x->hp[h] + 1) % x->hs[h].size();
-                    x->ev(tup("H", {m, h, e.id, v})); x->fire("H", m, h); return v; };
-                if (!sm->addEvent(sid, H["ev"].get<int>(), hf)) setup_failed("addEvent");
-            }
-        }
-        int init = M["init"];
-        if (M["ss"].empty() || M["ss"][0]["id"].get<int>() != init) sm->setInitState(init);   // else: the first newState() is the default
-        if (M["cc"].get<int>())
+        if (ms[m - 1]["cc"].get<int>())
             sm->setStateChangedCallback([x, sm, m](StateMachine::StateID f, StateMachine::StateID t, Event e) {
+                x->changed(m, t);
                 x->ev(tup("C", {m, f, e.id, t, sm->currentState()})); x->fire("C", m, 0); });
     }
-    for (int m = 1; m <= nm; ++m)
-        for (auto &S : ms[m - 1]["ss"]) {
-            int sub = S["sub"];
-            if (sub && !X.sm[m]->setSubStateMachine(S["id"].get<int>(), X.sm[sub].get())) setup_failed("setSubStateMachine");
+    if (p.contains("defs")) {
+        // replay the definition calls in exactly the order given: ["S",m,si,0] ["R",m,si,j] ["H",m,si,j] ["I",m,0,0] ["U",m,si,0]
+        for (auto &d : p["defs"]) {
+            std::string k = d[0]; int m = d[1], si = d[2], j = d[3];
+            const json &M = ms[m - 1];
+            if (k == "I") { X.sm[m]->setInitState(M["init"].get<int>()); continue; }
+            const json &S = M["ss"][si - 1];
+            if (k == "S") def_state(x, m, S);
+            else if (k == "R") def_route(x, m, S, S["rs"][j - 1]);
+            else if (k == "H") def_handler(x, m, S, S["hd"][j - 1]);
+            else if (k == "U") def_sub(x, m, S);
+            else { fprintf(stderr, "bad definition op %s\n", k.c_str()); _exit(3); }
         }
+        return;
+    }
+    // no order given: states, then routes and handlers, then the initial state, then the nested machines
+    for (int m = 1; m <= nm; ++m) {
+        const json &M = ms[m - 1];
+        for (auto &S : M["ss"]) def_state(x, m, S);
+        for (auto &S : M["ss"]) {
+            for (auto &R : S["rs"]) def_route(x, m, S, R);
+            for (auto &H : S["hd"]) def_handler(x, m, S, H);
+        }
+        int init = M["init"];
+        if (M["ss"].empty() || M["ss"][0]["id"].get<int>() != init) X.sm[m]->setInitState(init);   // else: the first newState() is the default
+    }
+    for (int m = 1; m <= nm; ++m)
+        for (auto &S : ms[m - 1]["ss"]) if (S["sub"].get<int>()) def_sub(x, m, S);
 }
 
 void run_one(const json &line) {
@@ -142,6 +181,7 @@ void run_one(const json &line) {
         for (auto &c : line["calls"]) {
             int op = c[0], e = c[1];
             X.out.clear(); X.first = true;
+            std::fill(X.act.begin(), X.act.end(), 0);
             // announced before it is made, so that a call that crashes is part of the replay file
             T.line("{\"e\":\"Begin\",\"c\":[" + std::to_string(op) + "," + std::to_string(e) + "]}");
             T.flush();
